@@ -41,8 +41,15 @@ class C10(SCheck):
             ops.append(gen.f_op("src/f%d" % i, size, pat=r.randrange(1, 1 << 30), mode=mode, mtime=mt, xattrs=xa or None, uid=uid, gid=gid))
             if overwrite and r.random() < 0.7:
                 ops.append(gen.f_op("dst/src/f%d" % i, r.randrange(0, 2000), pat=3, mode=r.choice([0o600, 0o666, 0o755, 0o4711])))
+        kernel = {}
+        if bs >= 4096 and r.random() < 0.3:
+            ln, runs = gen.sparse_layout(r, style=r.choice(["inter", "many"]), max_runs=6)
+            ops.append(gen.f_op("src/sparse", ln, runs=runs, mode=0o640, mtime=1_111_111_111_222_333_444, xattrs={"user.s": "01"}))
+            kernel["fiemap"] = "emulate"
+        if r.random() < 0.15:
+            kernel["cfr"] = r.choice(["ENOSYS", "EXDEV"])
         inv = gen.mk_inv(["src"], "dst", driver=driver, workers=workers, block_size=bs, **flags)
-        return {"setup": ops, "steps": [{"inv": inv}], "umask": umask}
+        return {"setup": ops, "steps": [{"inv": inv}], "umask": umask, "kernel": kernel, "max_events": 400000}
 
     def is_nontrivial(self, res, verdict, case):
         return any(e["k"] == "f" and e["p"].startswith("src/") and (e["mode"] not in (0o644,) or e.get("xattrs") or e["uid"]) for e in res["pre"])
